@@ -68,5 +68,6 @@ XEvent(r) ==
     \/ /\ r.ev = "zsthuge" /\ ZstHugeOK(r) /\ UNCHANGED <<gaVars, xVars>>
     \/ /\ r.ev = "zstviews" /\ ZstViewsOK(r) /\ UNCHANGED <<gaVars, xVars>>
     \/ /\ r.ev = "zstiter" /\ ZstIterOK(r) /\ UNCHANGED <<gaVars, xVars>>
+    \/ /\ r.ev = "zstseq" /\ ZstSeqOK(r) /\ UNCHANGED <<gaVars, xVars>>
     \/ /\ r.ev = "big_done" /\ r.ok /\ UNCHANGED <<gaVars, xVars>>
 =============================================================================
